@@ -13,7 +13,8 @@ MANIFEST = {
                   "connector, a bridged session has a bridged partner (C25.inv); a chunk received from a bridged client is appended whole "
                   "to the end of exactly its partner's write buffer and nothing else changes (delivery, delivery_spec); when a bridge comes "
                   "into being the partner is queued the BEGIN line and then everything the connector had pending, in order "
-                  "(bridge_handover, bridge_drained); every write buffer "
+                  "(bridge_handover, bridge_drained); for every split of the relay's writes into partial writes the receiver has a prefix "
+                  "of what was queued and the rest is still buffered (partial_flush); every write buffer "
                   "is a FIFO of exactly what was queued for that client (fifo, flush_fifo); every byte a step queues is either a reply "
                   "to the sending client or goes to the client whose bridge with the sender is established after the step, relayed bytes "
                   "being the sender's own (relay_only_to_bridged_partner, isolation_spec); EOF/error on one side of a bridge closes the "
@@ -25,7 +26,7 @@ MANIFEST = {
                   "compares per-client bytes, closures, session states, partners, read-buffer sizes, registrations and fd counts after "
                   "every op); kernel TCP semantics; weak_ptr::lock() modelled as 'session still in sessions_'. Not covered: EventLoop::run "
                   "dispatch (the harness calls accept_new_clients/on_client_event itself), send() errors (model event `err`, not "
-                  "provoked), partial writes (model event `flush c n`, the harness always drains). The theorems hold for the repaired "
+                  "provoked). Partial writes are provoked (4 KiB socket buffers, stalled readers) and judged on the cumulative stream. The theorems hold for the repaired "
                   "code (fixes/C25-reregister-claimed.patch); the unrepaired tree fails the check with signature claim-unique.",
     "technique": "Lean 4 invariant proof over all event sequences (induction over histories) + model/implementation differential "
                  "correspondence on real sockets with a Lean monitor",
@@ -328,6 +329,61 @@ def gen_burst(rng, big: bool) -> Case:
     return Case(ops=ops, tag="burst/" + style)
 
 
+def bulk_payload(rng, size: int) -> str:
+    """`size` bytes in 3-6 differently filled stretches with random markers in between (a dropped, duplicated or
+    reordered stretch changes length or hash)"""
+    parts, left = [], size
+    n = rng.choice([3, 4, 5, 6])
+    for i in range(n):
+        take = left if i == n - 1 else max(1, rng.randint(left // (2 * (n - i)), left // (n - i)))
+        parts.append(hx(rand_bytes(rng, 12)))
+        parts.append(f"{'%02x' % rng.randrange(256)}*{max(1, take - 12)}")
+        left -= take
+    return "+".join(parts)
+
+
+STALL_SIZES = [70000, 100000, 131072, 200000, 262144, 300000, 400000]
+
+
+def gen_stall(rng, big: bool) -> Case:
+    """back-pressure: a bridged client stops reading while its partner pushes 70 KB .. 4 MiB through the bridge (tiny
+    socket buffers, so the relay's send() returns short counts and it has to keep the rest), then reads again"""
+    nl = b"\n"
+    tid = rng.randrange(3)
+    small = [rng.random() < 0.85, rng.random() < 0.85]
+    ops = [("accs 1" if small[0] else "acc 1"), ("accs 2" if small[1] else "acc 2"),
+           snd(1, b"REGISTER " + peer_hex(tid).encode() + nl),
+           snd(2, b"CONNECT " + peer_hex(6).encode() + b" " + peer_hex(tid).encode() + nl),
+           snd(2, rand_bytes(rng, 32) + rand_bytes(rng, rng.choice([0, 3, 40])))]
+    if rng.random() < 0.5:
+        ops.append(f"snd {rng.choice([1, 2])} {data_payload(rng, big_ok=False)}")
+    for _ in range(rng.choice([1, 1, 2])):
+        slow = rng.choice([1, 2])
+        fast = 3 - slow
+        ops.append(f"stall {slow}")
+        sizes = STALL_SIZES + ([1048576, 1048576, 2097152, 4194304] if big else [])
+        total = rng.choice(sizes)
+        pieces = rng.choice([1, 1, 2, 3])
+        for i in range(pieces):
+            ops.append(f"snd {fast} {bulk_payload(rng, max(1000, total // pieces))}")
+            if rng.random() < 0.3:
+                ops.append(f"snd {slow} {data_payload(rng, big_ok=False)}")   # the other direction keeps working
+            if rng.random() < 0.2:
+                ops.append("nop")
+        ops.append(f"resume {slow}")
+        if rng.random() < 0.6:
+            ops.append(f"snd {fast} {data_payload(rng)}")
+        if rng.random() < 0.4:
+            ops.append(f"snd {slow} {data_payload(rng)}")
+    order = [1, 2]
+    rng.shuffle(order)
+    for k in order:
+        if rng.random() < 0.9:
+            ops.append(leave_op(rng, k))
+    ops.append("nop")
+    return Case(ops=ops, tag="stall")
+
+
 def leave_op(rng, k: int) -> str:
     return f"{rng.choice(['eof', 'eof', 'eof', 'shw', 'rst', 'hup'])} {k}"
 
@@ -496,8 +552,10 @@ def generate(ctx, budget):
         r = ctx.rng.random()
         if r < 0.75:
             cases.append(gen_pairing(ctx.rng, ctx.rng.choice(PAIRING_SHAPES), thorough and i % 5 == 0))
-        elif r < 0.87:
+        elif r < 0.85:
             cases.append(gen_burst(ctx.rng, thorough))
+        elif r < 0.90:
+            cases.append(gen_stall(ctx.rng, thorough and i % 40 == 0))
         else:
             cases.append(gen_malformed(ctx.rng, thorough and i % 5 == 0))
     if thorough:
@@ -538,13 +596,16 @@ def spec() -> Spec:
              "RelayServer on loopback sockets (harness-scheduled events, drained after every op): re-registration of a claimed peer, "
              "one peer id spelled lower/UPPER/MiXed across REGISTER, CONNECT self and CONNECT target with several connectors per peer, "
              "identity + 4 KiB..64 KiB of pipelined data in one write (no newline / newlines / command look-alikes; identity whole, "
-             "split, or behind CONNECT; target talking before the identity arrives), "
+             "split, or behind CONNECT; target talking before the identity arrives), back-pressure (a bridged client with 4 KiB socket "
+             "buffers stops reading while its partner pushes 70 KB..400 KB, thorough up to 4 MiB, then reads again: the relay gets "
+             "short writes), "
              "duplicate ids, CONNECT from registered sessions, self-connect, pipelined and fragmented commands/identity, payloads around "
              "4096/16384, disconnect (FIN, half-close, RST, HUP) at every stage; plus malformed streams; distinct = sha256 of the op list; "
              "non-trivial = a bridge is established",
         trusted_base=["kernel TCP/loopback semantics; recv() chunking reproduced by waiting (FIONREAD) until each 16 KiB slice has arrived",
                       "the event loop itself is not run: the harness calls accept_new_clients()/on_client_event() (EventLoop::run dispatch, "
-                      "epoll readiness and partial writes are outside the correspondence; partial writes are the model's `flush c n`)",
+                      "and epoll readiness are outside the correspondence); partial writes happen for clients accepted with 4 KiB socket buffers "
+                      "and for stalled readers, with kernel-chosen split points (the model's `flush c n`; theorems cover every split)",
                       "the session table printed by the harness is read from private members (sessions_, registered_, partner, state)"],
         assumptions=["a client index names one accepted connection for the whole history (descriptor reuse is invisible through weak_ptr)",
                      "send() errors are not provoked by the harness (modelled as event `err`)"],
